@@ -8,6 +8,7 @@ CONSTANTS MaxMsgs, MaxAdv, Sizes, Vals, WDirs
 MCNext ==
   \/ \E t \in {"real", "wrong"} : GenActOne(t)
   \/ RecvActOne \/ GenActTwo \/ RecvActTwo \/ GenActThree \/ RecvActThree
+  \/ \E c \in {<<1, ActSize(act.k) - 1>>, <<ActSize(act.k) - 1, 1>>, <<1, ActSize(act.k) - 2, 1>>} : FragmentAct(c)
   \/ nadv < MaxAdv /\ ((\E k \in {"ver", "eph", "badpt", "tag", "ct"} : AlterAct(k)) \/ OldActOne)
   \/ \E m \in {Writer(d) : d \in WDirs} :
        \/ \E size \in Sizes : \E v \in (IF size = LEN THEN Vals ELSE {-1}) :
